@@ -210,6 +210,14 @@ class Gen:
             while len(out) < n:
                 out += rng.choice(pool)
             return out[:n]
+        if t == IP6 and n == 16 and r < 0.35:
+            # addresses whose TEXT form is special: IPv4-mapped (printed dotted by net.IP), IPv4-compatible, NAT64, unspecified,
+            # loopback, zero runs at the start / in the middle / at the end / two runs of equal length
+            v4 = bytes(rng.randrange(256) for _ in range(4))
+            x = lambda k: bytes(rng.randrange(1, 256) for _ in range(k))
+            return rng.choice([bytes(10) + b"\xff\xff" + v4, bytes(12) + v4, b"\x00\x64\xff\x9b" + bytes(8) + v4, bytes(16), bytes(15) + b"\x01",
+                               bytes(8) + x(8), x(8) + bytes(8), x(2) + bytes(12) + x(2), x(2) + bytes(4) + x(4) + bytes(4) + x(2),
+                               x(4) + bytes(2) + x(10), bytes(10) + b"\xff\xfe" + v4, bytes(9) + b"\x01\xff\xff" + v4])
         if r < 0.15:
             return bytes([rng.choice([0, 0xff, 0x7f, 0x80, 1])]) * n
         if t in (F32, F64) and r < 0.4:
